@@ -6,6 +6,7 @@
 //    (See accompanying file LICENSE_1_0.txt or copy at
 //          https://www.boost.org/LICENSE_1_0.txt)
 
+#include <algorithm>
 #include <cstddef>
 #include <functional>
 #include <iostream>
@@ -91,13 +92,18 @@ namespace parmcb {
                  * Heuristic in case number of signed edges is small compared to the number of vertices.
                  */
                 std::map<Edge, std::set<Edge>> hidden_edges_per_edge;
-                std::vector<Edge> signed_edges_as_vector;
-                std::set<Edge> tmp_signed_edges = signed_edges;
-                while (!tmp_signed_edges.empty()) {
-                    auto bit = tmp_signed_edges.begin();
-                    hidden_edges_per_edge.insert(std::make_pair(*bit, tmp_signed_edges));
-                    signed_edges_as_vector.push_back(*bit);
-                    tmp_signed_edges.erase(bit);
+                /*
+                 * All processes must agree on the order of the signed edges: the order of std::set<Edge>
+                 * depends on pointer values, which differ between processes. The forest index does not.
+                 */
+                std::vector<Edge> signed_edges_as_vector(signed_edges.begin(), signed_edges.end());
+                std::sort(signed_edges_as_vector.begin(), signed_edges_as_vector.end(),
+                        [&forest_index](const Edge &a, const Edge &b) {
+                            return forest_index(a) < forest_index(b);
+                        });
+                for (auto it = signed_edges_as_vector.begin(); it != signed_edges_as_vector.end(); ++it) {
+                    hidden_edges_per_edge.insert(
+                            std::make_pair(*it, std::set<Edge>(it, signed_edges_as_vector.end())));
                 }
 
                 std::vector<Edge> local_signed_edges_as_vector;
